@@ -83,13 +83,14 @@ Definition norm_body1 (g : graph) (start block : id) : graph * id :=
 Fixpoint remove_first (x : id) (l : list id) : list id :=
   match l with [] => [] | y :: t => if Nat.eqb x y then t else y :: remove_first x t end.
 
-(* pass 2 body: an empty block with a single successor is by-passed (the start block is kept: the
-   Python statement [if block is start: start = block] is a no-op) *)
+(* pass 2 body: an empty block with a single successor other than itself is by-passed; when it was the
+   start block, the successor becomes the start *)
 Definition norm_body2 (g : graph) (start block : id) : graph * id :=
   match get_ops g block with
   | [] =>
       match out_of g block with
       | [ob] =>
+          if Nat.eqb ob block then (g, start) else
           let g1 := set_inc g ob (remove_first block (g_inc g ob)) in
           let g2 := fold_left (fun g prev =>
                                  let g' := match g_blk g prev with
@@ -98,7 +99,7 @@ Definition norm_body2 (g : graph) (start block : id) : graph * id :=
                                            end in
                                  if mem_id prev (g_inc g' ob) then g' else set_inc g' ob (g_inc g' ob ++ [prev]))
                               (g_inc g1 block) g1 in
-          (g2, start)
+          (g2, if Nat.eqb block start then ob else start)
       | _ => (g, start)
       end
   | _ :: _ => (g, start)
